@@ -54,7 +54,7 @@ TIERS = {
 }
 T0 = AggHarness.T0
 E = "E1"
-FAULTS = ["reconnect", "graceful", "drained", "abrupt"]
+FAULTS = ["reconnect", "graceful", "drained", "abrupt", "reconnect-dbfail"]
 # The engine reports its System State as an ordinary tag.  The RunStarted notification precedes the tag update that carries
 # "Running" (EngineRunner posts RunStartedMsg from the on_start event, the state change travels with the next tag batch),
 # so for a moment the aggregator knows the run while the last System State it has seen is still "Stopped".
@@ -159,7 +159,10 @@ def _run(case):
                 op = {"op": "uod_info", "engine": E, "readings": readings, "interval": interval, "annotate": ["Mark"]}
             run_faults = fault_log[mark_start[cur]:] if cur is not None else []
             idle_faults = fault_log[mark_idle:]
-            res = h.apply(op)
+            if kind == "disconnect" and op.get("db_fault") is True and connected:
+                res = _disconnect_with_failing_db_write(h, op, classes)
+            else:
+                res = h.apply(op)
             if res["skipped"] is not None:
                 classes.add("skipped:" + res["skipped"])
                 continue
@@ -238,6 +241,34 @@ def _run(case):
     return out, classes, nontrivial
 
 
+def _disconnect_with_failing_db_write(h, op, classes):
+    """the connection drops and the one database write of the disconnect handling (the RecentEngine row) fails once.
+    Whatever the handler does with the error - the websocket endpoint logs an exception of its on_disconnect callback -
+    the engine re-registers afterwards like after any lost connection, and the statement's continuity applies."""
+    from sqlalchemy.exc import OperationalError
+    from openpectus.aggregator.data.repository import RecentEngineRepository
+    real = RecentEngineRepository.store_recent_engine
+    fired = []
+
+    def failing(self, engine_data):
+        if not fired:
+            fired.append(1)
+            raise OperationalError("INSERT INTO RecentEngines ...", {}, Exception("database is locked"))
+        return real(self, engine_data)
+
+    RecentEngineRepository.store_recent_engine = failing
+    try:
+        try:
+            res = h.apply(op)
+            classes.add("fault:db-write-failed-at-disconnect:" + ("handled" if fired else "no-write-attempted"))
+        except OperationalError:
+            classes.add("fault:db-write-failed-at-disconnect:raised-to-endpoint")
+            res = {"op": "disconnect", "skipped": None}
+    finally:
+        RecentEngineRepository.store_recent_engine = real
+    return res
+
+
 def check_case(case) -> list[Violation]:
     return _run(case)[0]
 
@@ -254,6 +285,9 @@ def _connect_block(interval, readings, snapshot_t=None, sys_state=None):
 def _fault_block(kind, interval, readings, snapshot_t, sys_state=None):
     if kind == "reconnect":
         head = [{"op": "disconnect"}]
+    elif kind == "reconnect-dbfail":
+        # the database write the aggregator makes when the connection drops fails (locked file, full disk)
+        head = [{"op": "disconnect", "db_fault": True}]
     elif kind == "graceful":
         head = [{"op": "restart", "graceful": True}]
     elif kind == "drained":
@@ -349,7 +383,7 @@ def run_shard(col, cfg):
         for i, plan in enumerate(plans):
             if col.expired():
                 return
-            restart = any(k != "reconnect" for _, k in plan)
+            restart = any(not k.startswith("reconnect") for _, k in plan)
             db = "file" if restart and (i % 25) == story["file_pick"] else "memory"
             case = {"db": db, "interval": story["interval"], "readings": story["readings"], "ops": expand(story, plan)}
             vs, classes, nontrivial = _run(case)
